@@ -73,6 +73,8 @@ pub struct LayoutInfo {
 pub trait Ops: Send + Sync {
     fn save(&self, v: &MV, ver: u32, mode: Mode, sink: &mut Tap) -> Outcome<()>;
     fn load(&self, src: &mut TapR, ver: u32, mode: Mode) -> Outcome<MV>;
+    /// load from `src` and serialize the loaded value again (bare); the value itself is never interpreted by the harness
+    fn reload(&self, src: &mut TapR, ver: u32) -> Outcome<Vec<u8>>;
     fn packed(&self, ver: u32) -> bool;
     fn schema(&self, ver: u32) -> Outcome<serde_json::Value>;
     fn schema_obj(&self, ver: u32) -> Schema;
@@ -132,6 +134,15 @@ where
         guarded(|| {
             let val: T = load_t(src, ver, mode)?;
             Ok(val.to_model())
+        })
+    }
+    fn reload(&self, src: &mut TapR, ver: u32) -> Outcome<Vec<u8>> {
+        guarded(|| {
+            let val: T = load_t(src, ver, Mode::Bare)?;
+            let mut sink = Tap::new();
+            sink.keep_log = false;
+            save_t(&val, ver, Mode::Bare, &mut sink)?;
+            Ok(sink.data)
         })
     }
     fn packed(&self, ver: u32) -> bool {
